@@ -142,11 +142,11 @@ def roundtripClauses (wfmt : String) (t0 t1 : FTab) : List String :=
   let kinds := colKinds t0
   let car := carried wfmt t0
   let of (k : String) := car.filter (fun n => kinds.lookup n == some k)
-  (if sameRows [] t0 t1 then [] else ["roundtrip_coordinates"]) ++
-  (if sameRows (of "str") t0 t1 then [] else ["roundtrip_names"]) ++
-  (if sameRows (of "int") t0 t1 then [] else ["roundtrip_integer_columns"]) ++
-  (if sameRows (of "num") t0 t1 then [] else ["roundtrip_numbers_6_digits"]) ++
-  (if sameRows car t0 t1 then [] else ["roundtrip_rows"]) ++
+  (if !sameRows [] t0 t1 then ["roundtrip_coordinates"] else
+    (if sameRows (of "str") t0 t1 then [] else ["roundtrip_names"]) ++
+    (if sameRows (of "int") t0 t1 then [] else ["roundtrip_integer_columns"]) ++
+    (if sameRows (of "num") t0 t1 then [] else ["roundtrip_numbers_6_digits"]) ++
+    (if sameRows car t0 t1 then [] else ["roundtrip_rows"])) ++
   sortClauses t1.rows
 
 def clausesJ (l : List String) : Json := arrJ (l.eraseDups.map strJ)
@@ -161,7 +161,6 @@ def handleFormats (op : String) (inp : Json) (impl : Option Json) : R (Option Js
       | _ => false
     let sel ← getSel (optFld inp "sel")
     let out := readFmt fmt cna sel lines
-    -- key agreement between Basic.sorterChrom and nothing else is needed here
     let spec ← (match impl, optFld inp "truth" with
       | some ij, some tj => do
         let it ← getFTab ij
@@ -170,8 +169,8 @@ def handleFormats (op : String) (inp : Json) (impl : Option Json) : R (Option Js
           | some c => getList getStr c
           | none => pure [])
         pure (clausesJ (
-          (if sameRows [] truth it then [] else ["coords_zero_based_half_open"]) ++
-          (if sameRows car truth it then [] else ["names_kept"]) ++
+          (if !sameRows [] truth it then ["coords_zero_based_half_open"]
+           else if sameRows car truth it then [] else ["names_kept"]) ++
           sortClauses it.rows))
       | some ij, none => do
         let it ← getFTab ij
@@ -190,8 +189,8 @@ def handleFormats (op : String) (inp : Json) (impl : Option Json) : R (Option Js
           let d ← getFTab dj
           let common := a.names.filter d.names.contains
           pure (clausesJ (
-            (if sameRows [] d a then [] else ["auto_same_coordinates"]) ++
-            (if sameRows common d a && coordsOf a == coordsOf d then [] else ["auto_same_table"])))
+            if !sameRows [] d a then ["auto_same_coordinates"]
+            else if sameRows common d a && coordsOf a == coordsOf d then [] else ["auto_same_table"]))
         | _, _ => pure (clausesJ ["auto_detection_fails"])
       | none => pure Json.null)
     pure (some (obj [("out", exceptJ strJ out), ("spec", spec)]))
@@ -214,8 +213,9 @@ def handleFormats (op : String) (inp : Json) (impl : Option Json) : R (Option Js
       let w2 := writeFmt wfmt t1
       let sameOrder := coordsOf t0 == coordsOf t1
       let clauses := roundtripClauses wfmt t0 t1 ++
-        (if sameLineSet file1 file2 && (wfmt != "tab" || file1.head? == file2.head?) then [] else ["rewrite_same_lines"]) ++
-        (if file3 == file2 && (!sameOrder || file1 == file2) then [] else ["rewrite_identical_bytes"])
+        (if !sameRows (carried wfmt t0) t0 t1 then [] else
+          (if sameLineSet file1 file2 && (wfmt != "tab" || file1.head? == file2.head?) then [] else ["rewrite_same_lines"]) ++
+          (if file3 == file2 && (!sameOrder || file1 == file2) then [] else ["rewrite_identical_bytes"]))
       pure (some (obj [("out", obj [("w1", exceptJ cellLinesJ w1), ("r1", exceptJ ftabJ r1),
                                      ("w2", exceptJ cellLinesJ w2)]),
                        ("spec", clausesJ clauses)]))
